@@ -89,6 +89,11 @@ type Harness struct {
 	Unwind   int
 	MaxPaths int
 	Budget   int64
+	// HangIsViolation: the harness comment says "// hang: violation" — the
+	// property includes termination, so a path that exhausts the instruction
+	// budget or an unwinding bound is a candidate hang: it gets a model and
+	// is confirmed natively (the native run must not finish within 120 s)
+	HangIsViolation bool
 }
 
 type HarnessResult struct {
@@ -554,6 +559,12 @@ func (w *Worker) runPath(h *Harness, prefix []dec) (res pathResult) {
 			res.kind, res.msg = r.kind, r.msg
 			if r.kind == "budget" {
 				res.kind = "unwind"
+			}
+			if res.kind == "unwind" && h.HangIsViolation && !strings.Contains(r.msg, "per-path time limit") {
+				if m, v := i.model(); v == Sat {
+					res.kind = "fail"
+					res.fail = &Failure{Harness: h.ID, Msg: "no termination within the bound: " + r.msg, Inputs: m, Kind: "hang"}
+				}
 			}
 		case unsupported:
 			res.kind, res.msg = "unsupported", r.what
